@@ -130,6 +130,10 @@ class _NotEnumerable(Exception):
     pass
 
 
+class _GenStop(Exception):
+    pass
+
+
 @dataclasses.dataclass
 class Path:
     decisions: list          # [(term, bool)] assumptions made where the oracle did not decide
@@ -159,6 +163,9 @@ class Exec:
         self.steps = 0
         self.loops = []            # active symbolic loops: (uid, seq)
         self._loop_uid = 0
+        self.frames = [0]          # ids of the function activations being interpreted
+        self._frame_uid = 0
+        self.gen_handlers = {}     # frame id -> consumer of the values the generator running in that frame yields
 
     # ---------------------------------------------------------------- truth
     def truth(self, v, node=None):
@@ -517,6 +524,10 @@ class Exec:
 
     def e_Yield(self, e, env):
         v = self.ev(e.value, env) if e.value is not None else None
+        h = self.gen_handlers.get(self.frames[-1])
+        if h is not None:
+            h(v)               # a generator of the package being iterated by the interpreted code: the consumer's loop body runs here
+            return None
         # the attributes stored on the yielded object so far (what the consumer sees at this point)
         snap = {k.args[1]: x for k, x in self.heap.items() if isinstance(k, T) and k.op == 'attr' and k.args[0] == v}
         self.events.append(('yield', v, snap))
@@ -595,6 +606,9 @@ class Exec:
         elif eng.resolve is not None:
             target = eng.resolve(node, fname, fval, recv, self, env)
         if target is not None and self.depth < eng.max_depth:
+            if isinstance(node.func, ast.Attribute) and isinstance(node.func.value, ast.Call) and isinstance(node.func.value.func, ast.Name) \
+                    and node.func.value.func.id == 'super' and isinstance(env, dict) and 'self' in env:
+                recv = env['self']
             return self.inline(target, recv, args, kwargs)
         self.events.append(('call', fname, args, kwargs))
         return T('call', (fname, args, kwargs))
@@ -826,8 +840,12 @@ class Exec:
             return self.ev(clo.node.body, env)
         return self.run_body(clo.node, env)
 
-    def inline(self, target, recv, args, kwargs):
+    def inline(self, target, recv, args, kwargs, consumer=None):
         """Interpret a package function in place."""
+        node0 = target.node if isinstance(target, (FuncInfo, _Closure)) else target
+        if consumer is None and self.engine.inline_generators == 'lazy' and \
+                any(isinstance(n, (ast.Yield, ast.YieldFrom)) for n in ast.walk(node0) if n is not node0):
+            return T('genobj', (target, recv, tuple(args), tuple(kwargs)))
         env = {'__fi__': target if isinstance(target, FuncInfo) else None}
         if isinstance(target, _Closure):
             env.update(target.env)
@@ -860,14 +878,21 @@ class Exec:
         for ko, kd in zip(a.kwonlyargs, a.kw_defaults):
             env[ko.arg] = kw.get(ko.arg, self.ev(kd, {}) if kd is not None else T('missing', (ko.arg,)))
         self.depth += 1
+        self._frame_uid += 1
+        fid = self._frame_uid
+        self.frames.append(fid)
+        if consumer is not None:
+            self.gen_handlers[fid] = consumer
         try:
             return self.run_body(node, env)
         finally:
             self.depth -= 1
+            self.frames.pop()
+            self.gen_handlers.pop(fid, None)
 
     def run_body(self, node, env):
         if any(isinstance(n, (ast.Yield, ast.YieldFrom)) for n in ast.walk(node) if n is not node) and self.depth > 0 \
-                and not self.engine.inline_generators:
+                and not self.engine.inline_generators and self.frames[-1] not in self.gen_handlers:
             # a generator called from the interpreted code: its body runs when iterated; keep it opaque
             return T('call', (f'<generator {getattr(node, "name", "?")}>', (), ()))
         try:
@@ -1036,6 +1061,30 @@ class Exec:
 
     def s_For(self, st, env):
         seq = self.ev(st.iter, env)
+        if isinstance(seq, T) and seq.op == 'genobj':
+            target, recv, args, kwargs = seq.args
+
+            outer = self.frames[-1]
+
+            def consumer(v):
+                self.bind(st.target, v, env)
+                self.frames.append(outer)          # the loop body belongs to the activation that holds the loop
+                try:
+                    self.block(st.body, env)
+                except Continue:
+                    pass
+                except Break:
+                    raise _GenStop()
+                finally:
+                    self.frames.pop()
+            broke = False
+            try:
+                self.inline(target, recv, args, kwargs, consumer=consumer)
+            except _GenStop:
+                broke = True
+            if not broke and st.orelse:
+                self.block(st.orelse, env)
+            return
         items = self.iterate(seq)
         broke = False
         if items is not None:
@@ -1217,6 +1266,16 @@ class Engine:
         if fi is None:
             return None
         m = fi.module
+        if isinstance(f, ast.Attribute) and isinstance(f.value, ast.Call) and isinstance(f.value.func, ast.Name) and f.value.func.id == 'super' \
+                and not f.value.args:
+            owner = fi.parent
+            while owner is not None and not isinstance(owner, ClassInfo):
+                owner = owner.parent
+            if isinstance(owner, ClassInfo):
+                for c in P.mro(owner)[1:]:
+                    if isinstance(c, ClassInfo) and f.attr in c.methods:
+                        return c.methods[f.attr]
+            return None
         if isinstance(f, ast.Attribute) and isinstance(f.value, ast.Name) and f.value.id in ('self', 'cls'):
             owner = fi.parent
             while owner is not None and not isinstance(owner, ClassInfo):
